@@ -75,6 +75,30 @@ def run(ctx: Ctx) -> None:
                     ctx.ob("R17.9", f"types:{cname}.{m_.name}|text field {f_}", bad is None,
                            msg=f"`{short(bad, 50) if bad is not None else ''}`: the recorded spelling is transformed before it is written, so the text parses back to a different {cname} (e.g. 'long unsigned int' rendered as 'unsigned long int')", node=bad or m_, mod=types, nontrivial=False)
 
+    # ---------------------------------------------------------------- R17.10
+    # What a child's format()/format_decl() (or tokfmt) returns is finished text: it may contain any character the parent
+    # writes itself ('&', '*', '(' ...).  A parent that edits that text (replace / split / strip / slicing) edits the child's
+    # characters too (`Reference(...).format().replace("&", "&&", 1)` hits the '&' of a template argument first).  Formatted
+    # text is only concatenated.
+    ctx.rule("R17.10", "text returned by a child's format()/format_decl()/tokfmt is only concatenated, never edited", minimum=0)
+    for cname, cnode in types.classes():
+        for m_ in cnode.body:
+            if not isinstance(m_, ast.FunctionDef):
+                continue
+            for x in ast.walk(m_):
+                edited = None
+                if isinstance(x, ast.Call) and isinstance(x.func, ast.Attribute) and x.func.attr in _TRANSFORM - {"join", "format"}:
+                    edited = x.func.value
+                elif isinstance(x, ast.Subscript) and isinstance(x.ctx, ast.Load):
+                    edited = x.value
+                if edited is None:
+                    continue
+                inner = [c for c in ast.walk(edited) if isinstance(c, ast.Call) and ((isinstance(c.func, ast.Attribute) and c.func.attr in ("format", "format_decl") and not isinstance(c.func.value, ast.Constant))
+                                                                                  or (isinstance(c.func, ast.Name) and c.func.id == "tokfmt"))]
+                if inner:
+                    ctx.ob("R17.10", f"types:{cname}.{m_.name}|`{short(x, 50)}`", False,
+                           msg=f"the text produced by `{short(inner[0], 40)}` is edited afterwards (`{short(x, 60)}`): the edit also hits characters that belong to the child's own rendering, so some types format to text that parses back differently", node=x, mod=types)
+
     cache: Dict[Tuple[str, str], Any] = {}
     total = 0
     for cls in fm.classes:
